@@ -359,3 +359,75 @@ Section Fns.
         match goal with |- (if ?a then _ else _) = (if ?b then _ else _) => replace a with b by lia end. reflexivity.
   Qed.
 End Fns.
+
+(* ------------------------------------------------------------------ the calls, in the order the pipeline makes them *)
+(* PandoraMachine.matching_cost_prepare: cv = validity_mask(left, right, cv); then AbstractMatchingCost.cv_masked ends with
+   mask_invalid_variable_disparity_range(cv) and `if offset > 0: mask_border(cv)` (these three lines are hand-written here;
+   the flag-site scan of Gen/Flags.v and the correspondence tie them to the callers) *)
+Definition gen_after_mc (K : cname -> Z) (img_left img_right : imgrec) (cv : cvrec) : imat :=
+  let vm := g_validity_mask K img_left img_right cv in
+  let vm := g_mask_invalid_variable_disparity_range K cv vm in
+  if cv_offset cv >? 0 then g_mask_border K cv vm else vm.
+
+(* a NaN pattern of the shape of the layout, with at least one disparity sample *)
+Definition cube_ok (L : layout) (Q : cube) : Prop := q_err Q = false /\ q_nr Q = nr L /\ q_nc Q = nc L /\ 0 < q_nd Q.
+
+Theorem gen_after_mc_eq : forall L r0 c0 Q, 0 <= off L -> 0 <= nr L -> 0 < nc L -> dmin L <= dmax L -> cube_ok L Q ->
+  let G := gen_after_mc consts (imgl_of L r0 c0) (imgr_of L r0 c0) (cv_of L r0 c0 Q) in
+  okm L G /\ forall r c, 0 <= r < nr L -> 0 <= c < nc L -> m_at G r c = after_mc Eg L (allnan_of Q) r c.
+Proof.
+  intros L r0 c0 Q Hoff Hnr Hnc Hd (Qe & Qr & Qc & Qd). cbv zeta. unfold gen_after_mc. cbv zeta.
+  destruct (gen_validity_mask L r0 c0 Q Hoff Hnr Hnc Hd) as [V1 V2]. cbv zeta in V1, V2.
+  set (VM := g_validity_mask _ _ _ _) in *. clearbody VM.
+  destruct (gen_mivdr L r0 c0 Q VM V1 Qe Qr Qc Qd) as [M1 M2]. cbv zeta in M1, M2.
+  set (MV := g_mask_invalid_variable_disparity_range _ _ _) in *. clearbody MV.
+  unfold after_mc. cbn [cv_of cv_offset]. destruct (off L >? 0).
+  - destruct (gen_border L r0 c0 Q Hoff MV M1) as [B1 B2]. cbv zeta in B1, B2. split; [exact B1|].
+    intros r c Hr Hc. rewrite B2, M2, V2 by assumption. reflexivity.
+  - split; [exact M1|]. intros r c Hr Hc. rewrite M2, V2 by assumption. reflexivity.
+Qed.
+
+(* ------------------------------------------------------------------ the theorems of C04 about the matching-cost mask, restated on the generated functions *)
+From Pandora Require Import Model.FlagSteps Spec.Validity Proofs.FlagEnvP Proofs.CriteriaP.
+
+Section Restated.
+  Variables (L : layout) (r0 c0 : Z) (Q : cube) (gmin gmax : Z -> Z -> Z).
+  Hypothesis Hwf : wf_env Eg = true.
+  Hypothesis Hoff : 0 <= off L.
+  Hypothesis Hnc : 0 < nc L.
+  Hypothesis Hd : dmin L <= dmax L.
+  Hypothesis HQ : cube_ok L Q.
+  Let S := scene_of L gmin gmax.
+  Let G := gen_after_mc consts (imgl_of L r0 c0) (imgr_of L r0 c0) (cv_of L r0 c0 Q).
+  Let nan_ok := nan_pattern_ok L gmin gmax (allnan_of Q).
+
+  Lemma gen_flag_is_model : forall r c, in_img S r c -> m_at G r c = after_mc Eg L (allnan_of Q) r c.
+  Proof.
+    intros r c [Hr Hc]. unfold S, scene_of in Hr, Hc. cbn [s_nr s_nc] in Hr, Hc.
+    assert (Hnr : 0 <= nr L) by lia.
+    destruct (gen_after_mc_eq L r0 c0 Q Hoff Hnr Hnc Hd HQ) as [_ H]. cbv zeta in H. now apply H.
+  Qed.
+
+  Lemma gen_flag_expected : forall r c, in_img S r c -> nan_ok r c -> m_at G r c = expected_flag S r c.
+  Proof. intros r c Hi Hn. rewrite gen_flag_is_model by exact Hi. now apply (flag_expected Eg L gmin gmax (allnan_of Q) Hwf Hoff Hd). Qed.
+
+  Lemma gen_border_bit0_only : forall r c, border S r c -> nan_ok r c -> m_at G r c = 1.
+  Proof.
+    intros r c Hb Hn. rewrite gen_flag_is_model by apply Hb.
+    now apply (border_bit0_only Eg L gmin gmax (allnan_of Q) Hwf Hoff Hd).
+  Qed.
+
+  Lemma gen_bit7_iff : forall r c, in_img S r c -> win_in S r c -> nan_ok r c ->
+    (Z.testbit (m_at G r c) 7 = true <-> cause7 S r c).
+  Proof.
+    intros r c Hi Hw Hn. rewrite gen_flag_is_model by exact Hi.
+    now apply (bit7_iff Eg L gmin gmax (allnan_of Q) Hwf Hoff Hd).
+  Qed.
+
+  Lemma gen_invalid_iff_nocost : forall r c, in_img S r c -> nan_ok r c ->
+    (Z.land (m_at G r c) 195 <> 0 <-> no_cost S r c).
+  Proof.
+    intros r c Hi Hn. rewrite gen_flag_is_model by exact Hi.
+    now apply (invalid_iff_nocost Eg L gmin gmax (allnan_of Q) Hwf Hoff Hd).
+  Qed.
+End Restated.
